@@ -1003,6 +1003,7 @@ func c01reduce(m *meta.Module) (string, []string) {
 	for _, p := range w.Panics {
 		problems = append(problems, "walk-panic: "+p)
 	}
+	problems = append(problems, w.Problems...)
 	return b.String(), problems
 }
 
